@@ -152,3 +152,32 @@ Definition outcol_eqb (a b : outcol) : bool :=
 (* a real kernel's physical result: every chunk well-formed (zero chunks allowed: filter with nothing selected) *)
 Definition wf_chunks_b (p : chunked) : bool :=
   negb (length (ctype p) =? 0) && forallb (fun c => wf_chunk_b (ctype p) c && same_offsets_b c && lists_valid_b c) (chunks p).
+
+(* ---------- C05, frame level: one indexer moves whole rows (FrameRows.v) ---------- *)
+From NP Require Import FrameRows.
+Definition fcell_eqb (a b : fcell) : bool :=
+  match a, b with
+  | CVal x, CVal y => val_eqb x y
+  | CRow x, CRow y => lrow_eqb x y
+  | _, _ => false
+  end.
+Definition frow_eqb (a b : list (string * fcell)) : bool :=
+  list_eqb (fun x y => String.eqb (fst x) (fst y) && fcell_eqb (snd x) (snd y)) a b.
+Definition frame_len (F : fframe) : nat := match F with nc :: _ => col_len (snd nc) | [] => 0 end.
+(* F: the frame before (physical read-back), pos: the input position of every output row, Out: the real result.
+   A: the model's take gives the real result's rows; B: every result row is the whole input row; C: the result is a
+   frame; S: the input is a frame of the stated length and every position is in range *)
+Definition chk_frame_take (n : nat) (F : fframe) (pos : list nat) (Out : fframe) : list bool :=
+  let T := f_take F pos in
+  let js := seq 0 (length pos) in
+  [ (frame_len Out =? length pos) && forallb (fun j => frow_eqb (frame_row T j) (frame_row Out j)) js;
+    forallb (fun j => frow_eqb (frame_row Out j) (frame_row F (nth j pos 0))) js;
+    frame_ok (length pos) Out;
+    frame_ok n F && forallb (fun i => i <? n) pos ].
+Definition chk_frame_filter (n : nat) (F : fframe) (m : list bool) (Out : fframe) : list bool :=
+  let T := f_filter F m in
+  let js := seq 0 (count_true m) in
+  [ (frame_len Out =? count_true m) && forallb (fun j => frow_eqb (frame_row T j) (frame_row Out j)) js;
+    forallb (fun j => frow_eqb (frame_row Out j) (frame_row F (nth j (true_positions m) 0))) js;
+    frame_ok (count_true m) Out;
+    frame_ok n F && (length m =? n) ].
